@@ -8,9 +8,13 @@ quantity defined directly from the vertex coordinates in coq/Props/C07_spec.v.  
 remain after lowering (J = reference_grad(x), x, x0, CellFacetJacobian, CellRidgeJacobian,
 Cell/FacetEdgeVectors, ReferenceNormal, reference volumes, CellOrientation) are read through the
 predicate `interp` of C07_spec.v, which states the (trusted) reference-cell convention table.
-coq/Props/C07_thms.v proves that the vertex-level definitions are the geometric ones (circumcentre
-equidistance / Crelle, normals orthogonal+outward+unit, Gram determinants, inverse laws)."""
+coq/Props/C07_thms.v, C07_crelle.v, C07_normals.v prove that the vertex-level definitions are the
+geometric ones (circumcentre equidistance for triangles and, via Crelle's identity, tetrahedra;
+normals orthogonal + outward + unit; Gram determinants; inverse laws)."""
 
+import concurrent.futures as cf
+import hashlib
+import os
 import warnings
 
 import ufl
@@ -26,7 +30,7 @@ import ufl2coq
 import uflgen
 import vlib
 
-HAND_FILES = ["Props/C06_spec.v", "Props/C07_spec.v", "Props/C07_thms.v"]
+HAND_FILES = ["Props/C07_spec.v", "Props/C07_thms.v", "Props/C07_crelle.v", "Props/C07_normals.v"]
 
 CELLS = [("interval", 1), ("triangle", 2), ("tetrahedron", 3)]
 
@@ -36,7 +40,6 @@ EXPECTED_KINDS = {"SpatialCoordinate": 10, "CellOrigin": 14, "CellFacetJacobian"
 ALLOWED_TERMINALS = set(EXPECTED_KINDS)
 
 EXTRA_HEADER = r'''
-Require Import UFLV.Props.C07_spec.
 (* the cell: vertices V k i, evaluation point Xr, orientation co, diagonal reference normal rd *)
 Variable V : nat -> nat -> KT.
 Variable Xr : nat -> KT.
@@ -67,33 +70,52 @@ Definition gc2 (f : nat -> nat -> KT) (c : list nat) : KT := match c with [i; j]
 
 Ltac norm_any H :=
   let t := type of H in let t' := eval vm_compute in t in change t' in H.
-Ltac unify7 :=
-  match goal with
-  | |- context [fn ?f ?X] =>
-      match goal with
-      | |- context [fn f ?Y] =>
-          lazymatch X with Y => fail | _ => idtac end;
-          replace (fn f X) with (fn f Y) by (f_equal; arg_eq X Y)
-      end
-  | |- context [abs ?X] =>
-      match goal with
-      | |- context [abs ?Y] =>
-          lazymatch X with Y => fail | _ => idtac end;
-          replace (abs X) with (abs Y) by (f_equal; arg_eq X Y)
-      end
-  | |- context [min_ ?X1 ?X2] =>
-      match goal with
-      | |- context [min_ ?Y1 ?Y2] =>
-          lazymatch constr:((X1, X2)) with (Y1, Y2) => fail | _ => idtac end;
-          replace (min_ X1 X2) with (min_ Y1 Y2) by (f_equal; [arg_eq X1 Y1 | arg_eq X2 Y2])
-      end
-  | |- context [max_ ?X1 ?X2] =>
-      match goal with
-      | |- context [max_ ?Y1 ?Y2] =>
-          lazymatch constr:((X1, X2)) with (Y1, Y2) => fail | _ => idtac end;
-          replace (max_ X1 X2) with (max_ Y1 Y2) by (f_equal; [arg_eq X1 Y1 | arg_eq X2 Y2])
-      end
+(* Uninterpreted symbols (sqrt, abs, min, max) are handled innermost-first: an application whose
+   arguments contain no further such symbol is a "leaf"; all leaves with ring/field-equal arguments
+   are made syntactically equal and then abstracted to a fresh variable, so that ring/field only
+   ever see small polynomials. *)
+Ltac is_leaf X :=
+  lazymatch X with
+  | context [fn _ _] => fail
+  | context [abs _] => fail
+  | context [min_ _ _] => fail
+  | context [max_ _ _] => fail
+  | _ => idtac
   end.
+Ltac merge_fn f X :=
+  repeat match goal with
+  | |- context [fn f ?Y] =>
+      lazymatch Y with X => fail | _ => idtac end; is_leaf Y;
+      replace (fn f Y) with (fn f X) by (f_equal; arg_eq Y X)
+  end.
+Ltac merge_abs X :=
+  repeat match goal with
+  | |- context [abs ?Y] =>
+      lazymatch Y with X => fail | _ => idtac end; is_leaf Y;
+      replace (abs Y) with (abs X) by (f_equal; arg_eq Y X)
+  end.
+Ltac merge_min X1 X2 :=
+  repeat match goal with
+  | |- context [min_ ?Y1 ?Y2] =>
+      lazymatch constr:((Y1, Y2)) with (X1, X2) => fail | _ => idtac end; is_leaf Y1; is_leaf Y2;
+      replace (min_ Y1 Y2) with (min_ X1 X2) by (f_equal; [arg_eq Y1 X1 | arg_eq Y2 X2])
+  end.
+Ltac merge_max X1 X2 :=
+  repeat match goal with
+  | |- context [max_ ?Y1 ?Y2] =>
+      lazymatch constr:((Y1, Y2)) with (X1, X2) => fail | _ => idtac end; is_leaf Y1; is_leaf Y2;
+      replace (max_ Y1 Y2) with (max_ X1 X2) by (f_equal; [arg_eq Y1 X1 | arg_eq Y2 X2])
+  end.
+Ltac abs_step :=
+  match goal with
+  | |- context [fn ?f ?X] => is_leaf X; merge_fn f X; let a := fresh "a" in set (a := fn f X); clearbody a
+  | |- context [abs ?X] => is_leaf X; merge_abs X; let a := fresh "a" in set (a := abs X); clearbody a
+  | |- context [min_ ?X1 ?X2] => is_leaf X1; is_leaf X2; merge_min X1 X2;
+                                 let a := fresh "a" in set (a := min_ X1 X2); clearbody a
+  | |- context [max_ ?X1 ?X2] => is_leaf X1; is_leaf X2; merge_max X1 X2;
+                                 let a := fresh "a" in set (a := max_ X1 X2); clearbody a
+  end.
+Ltac c07_abstract := repeat abs_step.
 (* H0 : interp, H1 : re = id, H2 : conj = id; further hypotheses are non-degeneracy facts *)
 Ltac c07_pre H0 H1 H2 :=
   norm_goal;
@@ -104,6 +126,13 @@ Ltac c07_pre H0 H1 H2 :=
   repeat rewrite H1; repeat rewrite H2;
   norm_goal.
 Ltac c07_fin := first [ reflexivity | ring | field; nz_solve char0 ].
+(* Jacobian entries v_(j+1) - v_0 as single atoms: halves the polynomials whenever the goal depends on
+   the vertices only through J (tried first; the plain proof is the fallback) *)
+Ltac absJ :=
+  repeat match goal with
+  | |- context [sub (V (S ?j) ?i) (V 0 ?i)] =>
+      let a := fresh "jj" in set (a := sub (V (S j) i) (V 0 i)) in *; clearbody a
+  end.
 '''
 
 def interp_hyp(t, g, f=0, r=0):
@@ -113,10 +142,22 @@ def interp_hyp(t, g, f=0, r=0):
 REAL_HYPS = ["forall x, re x = x", "forall x, conj x = x"]
 
 
+LOWERING_ERRORS = []
+
+
 def lower(o):
-    with warnings.catch_warnings():
-        warnings.simplefilter("error")      # a warning means "not lowered": must not happen on P1 simplices
-        return apply_geometry_lowering(o)
+    """apply_geometry_lowering on a bare quantity of a P1 simplex mesh.  Raising (or warning: "not lowered")
+    on such an input is itself a failure of the property on that input: recorded, None returned."""
+    try:
+        with warnings.catch_warnings():
+            warnings.simplefilter("error")
+            return apply_geometry_lowering(o)
+    except Exception as ex:      # noqa: BLE001
+        dom = o.ufl_domain() if not hasattr(o, "ufl_operands") or o._ufl_is_terminal_ else o.ufl_operands[0].ufl_domain()
+        LOWERING_ERRORS.append({"quantity": str(o), "type": type(o).__name__,
+                                "cell": dom.ufl_cell().cellname, "gdim": dom.geometric_dimension,
+                                "exception": f"{type(ex).__name__}: {ex}"[:500]})
+        return None
 
 
 def terminals_of(e):
@@ -134,12 +175,15 @@ def build_cases(tier):
     cases = []
 
     def add(name, out, spec, t, g, f=0, r=0, nd=(), note=None, comps=None):
+        if out is None:
+            return
         bad = terminals_of(out) - ALLOWED_TERMINALS
         if bad:
             raise ufl2coq.Unsupported(f"{name}: lowered expression keeps unexpected terminals {sorted(bad)}")
         hyps = [interp_hyp(t, g, f, r)] + REAL_HYPS + list(nd)
         gen = ("generalize " + " ".join(f"H{k}" for k in range(3, len(hyps))) + "; ") if len(hyps) > 3 else ""
-        tactic = f"c07_pre H0 H1 H2; first [ c07_fin | {gen}repeat unify7; intros; c07_fin ]"
+        tactic = (f"c07_pre H0 H1 H2; first [ reflexivity | ring | solve [ absJ; {gen}c07_abstract; intros; c07_fin ] "
+                  f"| {gen}c07_abstract; intros; c07_fin ]")
         cases.append(coqgen.Case(name, out=out, spec=spec, hyps=hyps, tactic=tactic,
                                  comps=comps, note=dict(note or {}, tdim=t, gdim=g, facet=f, ridge=r)))
 
@@ -154,9 +198,10 @@ def build_cases(tier):
             add(f"J_{cg}", J, "gc2 gJm {c}", t, g, note={"q": "Jacobian"})
             add(f"K_{cg}", K, f"gc2 (gKinv {t} {g}) {{c}}", t, g, nd=nd, note={"q": "JacobianInverse"})
             i, j, k = indices(3)
-            add(f"KJ_{cg}", as_tensor(K[i, k] * J[k, j], (i, j)), "gc2 gdelta {c}", t, g, nd=nd,
-                note={"q": "JacobianInverse * Jacobian = I"})
-            if t == g:
+            if J is not None and K is not None:
+                add(f"KJ_{cg}", as_tensor(K[i, k] * J[k, j], (i, j)), "gc2 gdelta {c}", t, g, nd=nd,
+                    note={"q": "JacobianInverse * Jacobian = I"})
+            if t == g and J is not None and K is not None:
                 i, j, k = indices(3)
                 add(f"JK_{cg}", as_tensor(J[i, k] * K[k, j], (i, j)), "gc2 gdelta {c}", t, g, nd=nd,
                     note={"q": "Jacobian * JacobianInverse = I"})
@@ -196,19 +241,29 @@ def build_cases(tier):
                     add(f"FJ_{cf}", FJ, f"gc2 (gFJm {f}) {{c}}", t, g, f, note={"q": "FacetJacobian"})
                     add(f"FK_{cf}", FK, f"gc2 (gpinv {g} {t - 1} (gFJm {f})) {{c}}", t, g, f, nd=ndf,
                         note={"q": "FacetJacobianInverse"})
-                    i, j, k = indices(3)
-                    add(f"FKFJ_{cf}", as_tensor(FK[i, k] * FJ[k, j], (i, j)), "gc2 gdelta {c}", t, g, f, nd=ndf,
-                        note={"q": "FacetJacobianInverse * FacetJacobian = I"})
+                    if (t < 3 or tier == "thorough") and FJ is not None and FK is not None:
+                        i, j, k = indices(3)
+                        add(f"FKFJ_{cf}", as_tensor(FK[i, k] * FJ[k, j], (i, j)), "gc2 gdelta {c}", t, g, f, nd=ndf,
+                            note={"q": "FacetJacobianInverse * FacetJacobian = I"})
                     add(f"detFJ_{cf}", lower(C.FacetJacobianDeterminant(m)), f"gfdetJ {t} {g} {f}", t, g, f,
                         note={"q": "FacetJacobianDeterminant"})
                     fc = C.FacetCoordinate(m)
-                    if lower(fc) is not fc:
+                    if lower(fc) != fc:
                         raise ufl2coq.Unsupported("FacetCoordinate is expected to stay a terminal")
                 if t == 3:
                     add(f"minfedge_{cf}", lower(C.MinFacetEdgeLength(m)), f"gfacet_edge_ext min_ {g} {f}", t, g, f,
                         note={"q": "MinFacetEdgeLength"})
                     add(f"maxfedge_{cf}", lower(C.MaxFacetEdgeLength(m)), f"gfacet_edge_ext max_ {g} {f}", t, g, f,
                         note={"q": "MaxFacetEdgeLength"})
+            if tier == "thorough" and t >= 2:
+                # the same quantities below a restriction: the lowering must commute with it
+                for q, spec, ndq in (("FacetNormal", f"gc1 (gfnormal {t} {g} 1) {{c}}",
+                                      nd + [f"gsqrt (gnrm2 {g} (gndir {t} {g} 1)) <> z0"]),
+                                     ("CellVolume", f"gvol {t} {g}", []),
+                                     ("FacetArea", f"gfarea {t} {g} 1", [])):
+                    for sgn in "+-":
+                        add(f"R{'p' if sgn == '+' else 'm'}_{q}_{cg}", lower(getattr(C, q)(m)(sgn)), spec, t, g, 1,
+                            nd=ndq, note={"q": q, "restricted": sgn})
             if t == 3:
                 for r in range(6):
                     cr = f"{cg}_r{r}"
@@ -223,23 +278,88 @@ def build_cases(tier):
     return cases
 
 
+def hand_result(rel, tier):
+    """Compile a hand-written file (its theorems do not depend on /repo).  check.py's ensure_core has
+    already rebuilt it if it was stale; in the quick tier the output (Print Assumptions) of the last
+    successful compilation of exactly this source is reused instead of compiling it a second time."""
+    path = os.path.join(vlib.COQ, rel)
+    h = hashlib.sha1()
+    for q in [os.path.join(vlib.COQ, x) for x in vlib.CORE_FILES + [HAND_FILES[0]]] + [path]:
+        h.update(open(q, "rb").read())
+    cache = os.path.join(vlib.GEN, f"C07_hand_{os.path.basename(rel)[:-2]}_{h.hexdigest()[:16]}.out")
+    if tier == "quick" and vlib.vo_fresh(path) and os.path.exists(cache):
+        return vlib.CoqResult(path, True, open(cache).read(), "", 0.0)
+    r = vlib.coqc(rel, 1500)
+    if r.ok:
+        vlib.write_if_changed(cache, r.out)
+    return r
+
+
+def replay(run, data):
+    """bin/check C07 --replay replays/C07-*.json : evaluate the current tree's lowered expression on the
+    recorded simplex and compare with the quantity computed from its vertices."""
+    w = data.get("witness")
+    if not w:
+        print("replay file has no witness (no failing input had been found)")
+        return 2
+    case = next(c for c in build_cases("thorough") if c.name == data["case"])
+    got, exp, ok = C07_oracle.replay_witness(case, w)
+    print(f"case {case.name}: lowered expression evaluates to {got}, the cell's {w['quantity']} is {exp}: "
+          + ("AGREE" if ok else "DIFFER"))
+    return 0 if ok else 1
+
+
 def main(run):
     for n, k in EXPECTED_KINDS.items():
         if ufl2coq.KIND_OF_GEOMETRY.get(n) != k:
             raise RuntimeError(f"terminal kind of {n} changed; coq/Props/C07_spec.v (interp) must be updated")
+    del LOWERING_ERRORS[:]
     cases = build_cases(run.tier)
+    seen_err = set()
+    for e in LOWERING_ERRORS:
+        key = (e["type"], e["cell"], e["gdim"])
+        if key not in seen_err:
+            seen_err.add(key)
+            run.violation({"broken": "apply_geometry_lowering raises / refuses to lower a geometric quantity of an "
+                                     "affine simplex mesh (P1 vector Lagrange coordinate element)",
+                           "input": e, "expected": "an expression whose value is the quantity of the cell",
+                           "reproduce": "apply_geometry_lowering(ufl.classes.%s(ufl.Mesh(LagrangeElement(%s, 1, (%d,)))))"
+                                        % (e["type"], e["cell"], e["gdim"])}, True)
+    only = [x for x in os.environ.get("C07_ONLY", "").split(",") if x]
+    if only:      # debugging / self-test aid: restrict to the named case families (recorded in the evidence)
+        cases = [c for c in cases if any(c.name.startswith(x) for x in only)]
+        run.extra["filtered_by_C07_ONLY"] = only
     for c in cases:
         if c.name.split("_")[0] in ("circ", "fnormal", "vol", "minedge") and len(run.samples) < 10:
             run.sample({"case": c.name, "note": c.note, "spec": c.spec, "lowered": str(c.out)[:300]})
-    failing = coqgen.emit_and_check(run, "C07", cases, extra_header=EXTRA_HEADER, timeout=800)
-    for hf in HAND_FILES[1:]:
-        run.add_coq_result(vlib.coqc(hf))
+    # hand-written theorems are re-checked on every run, concurrently with the generated shards
+    pool = cf.ThreadPoolExecutor(max_workers=3)
+    hand = [pool.submit(hand_result, hf, run.tier) for hf in HAND_FILES[1:]]
+    # C07_spec must be required before coqgen's Section opens (a Require inside a section triggers a
+    # warning that hides the error location): prefix the header for this call only
+    saved = coqgen.HEADER
+    coqgen.HEADER = "Require Import UFLV.Props.C07_spec.\n" + saved
+    try:
+        failing = coqgen.emit_and_check(run, "C07", cases, extra_header=EXTRA_HEADER, timeout=1500)
+    finally:
+        coqgen.HEADER = saved
+    run.add_coq_result(hand_result(HAND_FILES[0], run.tier))
+    for fut in hand:
+        res = fut.result()
+        run.add_coq_result(res)
+        if not res.ok:
+            run.violation({"broken": "hand-written theorem file does not compile", "file": res.path,
+                           "error": (res.err or "")[-1500:]}, False)
+    run.checker_cmds.append("coqc -Q coq UFLV coq/Props/C07_{spec,thms,crelle,normals}.v")
+    bad = vlib.scan_forbidden([os.path.join(vlib.COQ, h) for h in HAND_FILES])
+    if bad:
+        run.violation({"broken": "forbidden vernacular in hand-written files", "where": bad}, False)
     for c in cases:
         run.count_case(c.name)
-    run.extra["configurations"] = sorted(f"{c.note['q']} tdim={c.note['tdim']} gdim={c.note['gdim']}"
-                                         + (f" facet={c.note['facet']}" if "_f" in c.name else "")
-                                         + (f" ridge={c.note['ridge']}" if "_r" in c.name else "")
-                                         for c in cases)
+    run.extra["configurations"] = sorted(
+        f"{c.name}: {c.note['q']} tdim={c.note['tdim']} gdim={c.note['gdim']} facet={c.note['facet']} "
+        f"ridge={c.note['ridge']}" + (f" restricted={c.note['restricted']}" if "restricted" in c.note else "")
+        for c in cases)
     seen = set()
     for case, lemma, msg in failing:
         if case is None:
@@ -251,7 +371,9 @@ def main(run):
         w = C07_oracle.search(case, trials=30 if run.tier == "quick" else 300, seed=run.seed)
         rep = {"broken_obligation": lemma, "case": case.name, "note": case.note, "coq_message": msg,
                "spec": case.spec, "lowered_expr": str(case.out)[:3000],
-               "reproduce": "bin/check C07  (py/C07_oracle.py evaluates the lowered expression on the witness simplex)"}
+               "reproduce": "bin/check C07 --replay <this file>  (evaluates apply_geometry_lowering's output for this "
+                            "quantity on the witness simplex, terminals read by the convention table of "
+                            "coq/Props/C07_spec.v, and compares with numpy's value from the vertices)"}
         if w:
             rep["witness"] = w
         run.violation(rep, bool(w))
